@@ -47,12 +47,21 @@ func RunAgg(r *rt.Run) error {
 			tr := svc.Begin(t)
 			tr.Register("h1", Cfg{Topic: "t1", Kind: "agg", Match: "none", Targets: []string{"t2"}})
 			tr.Register("h3", Cfg{Topic: "t2", Kind: "rec", Match: "none"})
+			// what a match expression can see of a summary: it has no name or task name, and the largest duration
+			tr.Register("h4", Cfg{Topic: "t2", Kind: "rec", Match: "durGt1"})
+			tr.Register("h5", Cfg{Topic: "t2", Kind: "rec", Match: "nameM"})
 			for k, s := range hist {
 				ev := alert.Event{Topic: tr.real("t1"), State: alert.EventState{ID: s.id, Level: alert.Level(s.lvl), Message: "m"}}
+				ev.Data.Name, ev.Data.TaskName = "m", "tk"
+				f := rt.M{"topic": "t1", "id": s.id, "lvl": s.lvl}
+				if (hi+k)%3 == 0 {
+					ev.State.Duration = 5 * time.Second
+					f["tag"] = "d"
+				}
 				if err := svc.S.Collect(ev); err != nil {
 					rt.Fatalf("c09agg: collect: %v", err)
 				}
-				t.Event("Collect", rt.M{"topic": "t1", "id": s.id, "lvl": s.lvl})
+				t.Event("Collect", f)
 				if pace == 1 || (pace == 2 && k == len(hist)/2) {
 					time.Sleep(8 * time.Millisecond)
 				}
